@@ -632,3 +632,4 @@ _add_v("C12", "coerce")        # computed property names
 _add_v("C20", "call")          # the body runs on the closure's chain, not the caller's (lexical, not dynamic, lookup)
 _add_v("C17", "call")          # evaluation order decides which prints precede a failure
 _add_v("C03", "lex_skip")      # skipping blanks and comments terminates (never hangs), also at the end of the input
+_add_v("C18", "bind_next")     # a failing `xs[i] op= v` / `o.k op= v` shows the operator's position first
